@@ -265,19 +265,27 @@ def make_replay(pid, v, repo, here, known_entry=None, seed=0):
                     rec['witness_search'] = f'{fam}: no panic/hang/abort among the candidates tried'
             else:
                 rec['witness_search'] = 'replay crate does not build against the current tree'
-        elif fam and fam.startswith('enum:'):
+        elif fam and (isinstance(fam, list) or fam.startswith('enum:')):
+            fams = fam if isinstance(fam, list) else [fam]
             if build_replay(here) == 0:
-                r = run_replay(here, fam, [])
-                rec['witness_search'] = f'small-value enumerator {fam}'
-                rec['observed_on_real_code'] = r
-                rec['replay_cmd'] = f'{replay_bin(here)} {fam}'
-                if r['outcome'] != 'ok':
-                    rec['failing_input_found'] = True
-                    rec['input'] = r['output']
+                rec['witness_search'] = 'small-value enumerators ' + ', '.join(fams)
+                for f1 in fams:
+                    r = run_replay(here, f1, [], timeout=120)
+                    rec['observed_on_real_code'] = r
+                    rec['replay_cmd'] = f'{replay_bin(here)} {f1}'
+                    if r['outcome'] != 'ok':
+                        rec['failing_input_found'] = True
+                        rec['input'] = r['output']
+                        break
             else:
                 rec['witness_search'] = 'replay crate does not build against the current tree'
         else:
             rec['witness_search'] = 'no witness enumerator for this obligation family'
+    elif v['backend'] == 'replay':
+        rec['observed_on_real_code'] = v.get('observed')
+        rec['replay_cmd'] = f"{replay_bin(here)} {v.get('family')}"
+        rec['failing_input_found'] = True
+        rec['input'] = (v.get('observed') or {}).get('output')
     else:
         conc = v.get('concrete')
         if conc and v.get('schema') == 'raw' and v.get('replay_family'):
